@@ -557,7 +557,11 @@ class LineCoverageInstrumentation(python3_10.LineCoverageInstrumentation):
     instructions_generator = Python311InstrumentationInstructionsGenerator
 
     def should_instrument_line(self, instr: Instr, lineno: int | _UNSET | None) -> bool:  # noqa: D102
-        return super().should_instrument_line(instr, lineno) and instr.name != "RESUME"
+        # The prologue of a function is not part of any executed line
+        return super().should_instrument_line(instr, lineno) and instr.name not in {
+            "RESUME",
+            "RETURN_GENERATOR",
+        }
 
 
 class CheckedCoverageInstrumentation(python3_10.CheckedCoverageInstrumentation):
@@ -566,7 +570,11 @@ class CheckedCoverageInstrumentation(python3_10.CheckedCoverageInstrumentation):
     instructions_generator = Python311InstrumentationInstructionsGenerator
 
     def should_instrument_line(self, instr: Instr, lineno: int | _UNSET | None) -> bool:  # noqa: D102
-        return super().should_instrument_line(instr, lineno) and instr.name != "RESUME"
+        # The prologue of a function is not part of any executed line
+        return super().should_instrument_line(instr, lineno) and instr.name not in {
+            "RESUME",
+            "RETURN_GENERATOR",
+        }
 
     def visit_call(  # noqa: D102, PLR0917
         self,
